@@ -13,3 +13,5 @@ import Stingray.Driver.Layout
 import Stingray.Model.Odo
 import Stingray.Model.Value
 import Stingray.Driver.Value
+import Stingray.Model.Copybook
+import Stingray.Driver.Copybook
